@@ -130,6 +130,8 @@ static CLAIM: AtomicU64 = AtomicU64::new(u64::MAX);
 static TAIL: [AtomicU64; 2] = [AtomicU64::new(0), AtomicU64::new(0)];
 /// a regeneration scenario a continuation ran on the side (see IoMmap::regen): one `regen` event
 static REGEN: Mutex<Option<Value>> = Mutex::new(None);
+/// access-script events a continuation ran on the side (see IoMmap::scripts)
+static SCRIPTS: Mutex<Vec<Value>> = Mutex::new(Vec::new());
 
 /// What a CONTINUATION observed: the undamaged image of a sync point is opened (in some open mode /
 /// configuration), used further (appends only: push / put / write), closed and opened again.
@@ -1044,14 +1046,15 @@ impl Subject for IoMmap {
         self.read(&dir.join("stream.bin"))
     }
     fn modes(&self) -> Vec<&'static str> {
-        vec!["append", "regen"]
+        vec!["append", "regen", "scripts"]
     }
     /// open the synced file for writing again, append at its end, flush, read back, reopen
     fn resume(&self, dir: &Path, mode: &str, rng: &mut Rng) -> Result<Resumed, String> {
         let path = dir.join("stream.bin");
-        if mode == "regen" {
-            *REGEN.lock().unwrap() = Some(self.regen(dir, rng));
-        }
+        // every continuation also runs one create-over-existing scenario
+        *REGEN.lock().unwrap() = Some(self.regen(dir, rng));
+        // access scripts on files on both sides of the strategy thresholds (the 1 MiB ones every third time)
+        self.scripts(dir, rng, mode != "append");
         let c0 = self.read(&path)?.0;
         let len0 = c0.len();
         let mut added = 0usize;
@@ -1093,7 +1096,278 @@ impl Subject for IoMmap {
     }
 }
 
+/// byte at offset i of a pattern file (the same formula is in DurableFile.tla: PatByte)
+fn pat_byte(seed: u64, i: u64) -> u8 {
+    ((i * 7 + (i / 256) * 13 + seed) % 251) as u8
+}
+
+/// uniform view of a file-backed input for the access scripts; every method is a call-through
+trait Rd {
+    fn read(&mut self, n: usize) -> Option<Vec<u8>>;
+    fn skip(&mut self, n: usize) -> bool;
+    /// None = the type offers no seek
+    fn seek(&mut self, _a: usize) -> Option<bool> {
+        None
+    }
+    fn pos(&self) -> i64;
+    fn rem(&self) -> i64;
+}
+fn di_read<D: DataInput>(d: &mut D, n: usize) -> Option<Vec<u8>> {
+    // the typed readers for their widths, the byte reader otherwise
+    match n {
+        1 => d.read_u8().ok().map(|x| vec![x]),
+        2 => d.read_u16().ok().map(|x| x.to_le_bytes().to_vec()),
+        4 => d.read_u32().ok().map(|x| x.to_le_bytes().to_vec()),
+        8 => d.read_u64().ok().map(|x| x.to_le_bytes().to_vec()),
+        _ => {
+            let mut b = vec![0u8; n];
+            d.read_bytes(&mut b).ok().map(|_| b)
+        }
+    }
+}
+impl Rd for MemoryMappedInput {
+    fn read(&mut self, n: usize) -> Option<Vec<u8>> {
+        if n == 3 {
+            self.read_slice(3).ok()
+        } else {
+            di_read(self, n)
+        }
+    }
+    fn skip(&mut self, n: usize) -> bool {
+        DataInput::skip(self, n).is_ok()
+    }
+    fn seek(&mut self, a: usize) -> Option<bool> {
+        Some(MemoryMappedInput::seek(self, a).is_ok())
+    }
+    fn pos(&self) -> i64 {
+        self.position() as i64
+    }
+    fn rem(&self) -> i64 {
+        self.remaining() as i64
+    }
+}
+impl Rd for MmapDataInput {
+    fn read(&mut self, n: usize) -> Option<Vec<u8>> {
+        di_read(self, n)
+    }
+    fn skip(&mut self, n: usize) -> bool {
+        DataInput::skip(self, n).is_ok()
+    }
+    fn pos(&self) -> i64 {
+        self.pos() as i64
+    }
+    fn rem(&self) -> i64 {
+        self.remaining() as i64
+    }
+}
+impl Rd for zipora::io::ReaderDataInput<fs::File> {
+    fn read(&mut self, n: usize) -> Option<Vec<u8>> {
+        di_read(self, n)
+    }
+    fn skip(&mut self, n: usize) -> bool {
+        DataInput::skip(self, n).is_ok()
+    }
+    fn pos(&self) -> i64 {
+        self.pos() as i64
+    }
+    fn rem(&self) -> i64 {
+        -1
+    }
+}
+impl Rd for zipora::io::RangeReader<fs::File> {
+    fn read(&mut self, n: usize) -> Option<Vec<u8>> {
+        di_read(self, n)
+    }
+    fn skip(&mut self, n: usize) -> bool {
+        DataInput::skip(self, n).is_ok()
+    }
+    fn seek(&mut self, a: usize) -> Option<bool> {
+        Some(self.seek_in_range(a as u64).is_ok())
+    }
+    fn pos(&self) -> i64 {
+        (self.current_position() - self.start_position()) as i64
+    }
+    fn rem(&self) -> i64 {
+        self.remaining() as i64
+    }
+}
+impl Rd for zipora::io::MmapZeroCopyReader {
+    fn read(&mut self, n: usize) -> Option<Vec<u8>> {
+        use zipora::io::ZeroCopyRead;
+        let v = self.zc_read(n).ok().flatten().map(|s| s.to_vec())?;
+        self.zc_advance(n).ok()?;
+        Some(v)
+    }
+    fn skip(&mut self, n: usize) -> bool {
+        use zipora::io::ZeroCopyRead;
+        self.zc_advance(n).is_ok()
+    }
+    fn seek(&mut self, a: usize) -> Option<bool> {
+        Some(self.set_position(a).is_ok())
+    }
+    fn pos(&self) -> i64 {
+        self.position() as i64
+    }
+    fn rem(&self) -> i64 {
+        use zipora::io::ZeroCopyRead;
+        self.zc_available() as i64
+    }
+}
+
 impl IoMmap {
+    /// the readers this variant opens a file with: (name, offset of the view inside the file, length of the view)
+    fn readers(&self, path: &Path, size: usize) -> Vec<(String, usize, usize, Box<dyn Rd>)> {
+        let mut v: Vec<(String, usize, usize, Box<dyn Rd>)> = vec![];
+        let file = || fs::File::open(path).ok();
+        match self.0 {
+            "mmo" => {
+                if let Ok(r) = MemoryMappedInput::from_path(path) {
+                    v.push(("mmi".into(), 0, size, Box::new(r)));
+                }
+            }
+            "mmo-zc" => {
+                if let Ok(r) = MemoryMappedInput::from_path_with_pattern(path, AccessPattern::Sequential) {
+                    v.push(("mmi-seq".into(), 0, size, Box::new(r)));
+                }
+                if let Some(Ok(r)) = file().map(|f| MemoryMappedInput::new_with_pattern(f, AccessPattern::Mixed)) {
+                    v.push(("mmi-mixed".into(), 0, size, Box::new(r)));
+                }
+            }
+            "mmo-peek" => {
+                if let Some(Ok(r)) = file().map(|f| MemoryMappedInput::new_with_pattern(f, AccessPattern::Random)) {
+                    v.push(("mmi-rand".into(), 0, size, Box::new(r)));
+                }
+                if let Some(Ok(r)) = file().map(MemoryMappedInput::new) {
+                    v.push(("mmi-new".into(), 0, size, Box::new(r)));
+                }
+            }
+            _ => {
+                if let Ok(r) = MmapDataInput::open(path) {
+                    v.push(("mdi".into(), 0, size, Box::new(r)));
+                }
+                if let Some(f) = file() {
+                    v.push(("rdi-file".into(), 0, size, Box::new(zipora::io::from_reader(f))));
+                }
+                if let Some(Ok(r)) = file().map(|f| zipora::io::RangeReader::new_and_seek(f, 0, size as u64)) {
+                    v.push(("range-all".into(), 0, size, Box::new(r)));
+                }
+                if size >= 8 {
+                    if let Some(Ok(r)) = file().map(|f| zipora::io::RangeReader::new_and_seek(f, 3, size as u64 - 5)) {
+                        v.push(("range-sub".into(), 3, size - 5, Box::new(r)));
+                    }
+                }
+                if let Some(Ok(r)) = file().map(zipora::io::MmapZeroCopyReader::new) {
+                    v.push(("zc-mmap".into(), 0, size, Box::new(r)));
+                }
+            }
+        }
+        v
+    }
+
+    /// ACCESS SCRIPTS: a pattern file of a given size is read back through every reader of this variant
+    /// in several ways (sequential; skip first; seek + skip; first and last byte; alternating read / skip;
+    /// skip(0); skip to exactly the end, then a read and a skip that must be refused).  Every step logs
+    /// what was asked, what came back and position / remaining afterwards; TLC replays the script on the
+    /// abstract position and the pattern formula.
+    fn scripts(&self, dir: &Path, rng: &mut Rng, large: bool) {
+        let path = dir.join("pattern.bin");
+        let mut sizes: Vec<usize> = vec![0, 1, 7, 4095, 4096, 4097];
+        if large {
+            sizes.push((1 << 20) - 1);
+            sizes.push(1 << 20);
+        }
+        for size in sizes {
+            let seed = rng.below(200);
+            let bytes: Vec<u8> = (0..size as u64).map(|i| pat_byte(seed, i)).collect();
+            if fs::write(&path, &bytes).is_err() {
+                continue;
+            }
+            for script in 0..7usize {
+                let k = rng.below(size as u64 + 1) as usize;
+                let nreaders = self.readers(&path, size).len();
+                for ri in 0..nreaders {
+                    let mut rs = self.readers(&path, size);
+                    let (name, base, vsize, mut r) = rs.swap_remove(ri);
+                    // the requests of the script, as a function of the view size
+                    let mut req: Vec<(&str, usize)> = vec![];
+                    match script {
+                        0 => {
+                            for n in [8usize, 3, 4, 2, 1, 5] {
+                                req.push(("read", n));
+                            }
+                        }
+                        1 => {
+                            req.push(("skip", k.min(vsize)));
+                            req.push(("read", 4));
+                            req.push(("read", 1));
+                        }
+                        2 => {
+                            let a = if vsize > 0 { rng.below(vsize as u64) as usize } else { 0 };
+                            let b = rng.below((vsize - a) as u64 + 1) as usize;
+                            req.push(("seek", a));
+                            req.push(("skip", b));
+                            req.push(("read", 2));
+                            req.push(("seek", a / 2));
+                            req.push(("read", 1));
+                        }
+                        3 => {
+                            req.push(("read", 1));
+                            req.push(("skip", vsize.saturating_sub(2)));
+                            req.push(("read", 1));
+                            req.push(("read", 1));
+                        }
+                        4 => {
+                            for _ in 0..6 {
+                                req.push(("read", 1));
+                                req.push(("skip", 1));
+                            }
+                        }
+                        5 => {
+                            req.push(("skip", 0));
+                            req.push(("read", 2));
+                            req.push(("skip", 0));
+                            req.push(("read", 8));
+                        }
+                        _ => {
+                            req.push(("skip", vsize));
+                            req.push(("read", 1));
+                            req.push(("skip", 1));
+                        }
+                    }
+                    let mut steps: Vec<Value> = vec![];
+                    let mut unsupported = false;
+                    for (a, n) in req {
+                        let (ok, val) = match a {
+                            "read" => match r.read(n) {
+                                Some(v) => (true, v),
+                                None => (false, vec![]),
+                            },
+                            "skip" => (r.skip(n), vec![]),
+                            _ => match r.seek(n) {
+                                Some(ok) => (ok, vec![]),
+                                None => {
+                                    unsupported = true;
+                                    break;
+                                }
+                            },
+                        };
+                        steps.push(json!({"a": a, "n": n, "ok": ok, "val": bytes_json(&val), "pos": r.pos(), "rem": r.rem()}));
+                        if !ok {
+                            // after a refusal the state of a streaming reader is not defined: the script ends
+                            break;
+                        }
+                    }
+                    if unsupported {
+                        continue;
+                    }
+                    SCRIPTS.lock().unwrap().push(json!({"reader": name, "size": vsize, "base": base, "seed": seed,
+                        "fsize": size, "script": script, "steps": steps}));
+                }
+            }
+        }
+        let _ = fs::remove_file(&path);
+    }
+
     /// A file is CREATED OVER AN EXISTING ONE: generation 1 is a longer file full of 0xAA, generation 2
     /// is created at the same path with a smaller initial size, writes little (seeks leave gaps, the
     /// final truncate() is optional) and is read back through the reader of this variant.  The event
@@ -1630,6 +1904,7 @@ fn mode_child(a: &Args) {
             let mode = modes[k % modes.len()];
             let mut rng = Rng::new(spec["seed"].as_u64().unwrap_or(1)).derive(&format!("resume#{k}"));
             *REGEN.lock().unwrap() = None;
+            SCRIPTS.lock().unwrap().clear();
             let r = guard(|| subj.resume(&img_dir, mode, &mut rng));
             CUR_START_MS.store(0, Ordering::SeqCst);
             let zero = json!({"len": 0, "h": [0, 0]});
@@ -1645,6 +1920,10 @@ fn mode_child(a: &Args) {
             };
             if let Some(g) = REGEN.lock().unwrap().take() {
                 line["regen"] = g;
+            }
+            let sc: Vec<Value> = SCRIPTS.lock().unwrap().drain(..).collect();
+            if !sc.is_empty() {
+                line["scripts"] = Value::Array(sc);
             }
             append_line(&res, &line);
             continue;
@@ -1861,6 +2140,14 @@ fn mode_images(a: &Args) {
                     "len0": g("len0", json!(0)), "len1": g("len1", json!(0)), "added": g("added", json!(0)),
                     "old0": g("old0", zero.clone()), "old1": g("old1", zero.clone()), "live": g("live", zero.clone()),
                     "again_open": g("again_open", json!("err")), "again": g("again", zero.clone()), "msg": g("msg", json!(""))}));
+                if let Some(list) = r.get("scripts").and_then(|x| x.as_array()) {
+                    for g in list {
+                        let mut e = g.clone();
+                        e["op"] = json!("script");
+                        tr.ev(e);
+                        *sum.entry(format!("script/{}", g["reader"].as_str().unwrap_or("?"))).or_default() += 1;
+                    }
+                }
                 if let Some(g) = r.get("regen") {
                     let mut e = g.clone();
                     e["op"] = json!("regen");
